@@ -447,6 +447,9 @@ def run_point(doc, log):
         else:
             log.count("probe-skipped-nonfinite")
         sv_new = g[-1]
+        # the finite-difference probes called the object with other arrays; a solid body's last call
+        # at this state is one with its own buffers
+        umat.gradient(x) if k % 2 == 0 else umat.hessian(x)
         log.ev("op", k=k, t=t, accept=op["accept"], g=g[0])
         if model == "Plastic" and sv_new is not None:
             log.count("plastic-loading-point", int((np.asarray(sv_new)[0] > sv[0]).sum()))
